@@ -24,11 +24,15 @@ META = dict(
          "NewCustomHashPartitioner, NewCustomPartitioner with every subset of WithAbsFirst / WithCustomHashFunction / "
          "WithCustomFallbackPartitioner) x every corner int32 hash {-2^31, -2^31+1, -n-1..n+1, multiples of n +-1 up to the "
          "int32 limits, 2^31-2, 2^31-1} and FNV keys, nil and empty keys x n in 1..16, all 3-call behaviours over a small key "
-         "set, all round-robin call sequences of length 6 with n in 1..4 changing freely, and seeded long behaviours; for the "
+         "set, all round-robin call sequences of length 6 with n in 1..4 changing freely, seeded long behaviours, and every "
+         "interleaving of the calls (split into Reset+Write / Sum32) of two instances handed out by one constructor value; for the "
          "producer every topic with 1..3 partitions (thorough: 4) x every leaderless subset x 9 partitioner kinds (built-in, "
-         "custom static/dynamic consistency, scripted out-of-range/negative/error returns) x every 2-message input. Range, "
+         "custom static/dynamic consistency, scripted out-of-range/negative/error returns) x every 2-message input, plus recovery "
+         "scenarios (all partitions leaderless for 3/4 (thorough 6) messages, then leaders back for every smaller leaderless "
+         "set, then 2 messages; circuit breakers of topic and partition workers modelled). Range, "
          "equal-keys, Java-reference arithmetic, legacy arithmetic, manual, round-robin cycling, offered-list rule, "
-         "sent-to-chosen and invalid/no-partition => error-and-unsent are invariants of the models and clauses of the observer "
+         "sent-to-chosen, invalid/no-partition => error-and-unsent and available-partitions-are-offered (also after a recovery) "
+         "are invariants of the models and clauses of the observer "
          "evaluated by TLC on what the real code did.",
     note="bounded enumeration (n <= 16, <= 4 partitions per topic, 2-3 messages per scenario); the model of the Java client is "
          "toPositive(h) % n on the same 32-bit hash (murmur2 itself is out of scope); the legacy variant's documented formula "
@@ -40,21 +44,28 @@ META = dict(
 PART_CLAUSES = ["in_range", "manual_returns_own", "reference_matches_java", "legacy_abs_of_remainder",
                 "equal_keys_equal_partitions", "roundrobin_cycles"]
 PROD_CLAUSES = ["keyed_consistent_offered_all", "others_offered_writable_only", "no_partition_fails_unsent",
-                "invalid_choice_fails_unsent", "sent_to_chosen_partition"]
+                "invalid_choice_fails_unsent", "sent_to_chosen_partition", "available_partitions_are_offered"]
 
 
 def model_runs(ctx):
-    """(name, module, cfg, kind) kind: 'gen-part' | 'gen-prod' | 'mc' | 'asis' | 'sim'"""
+    """(name, module, cfg, kind) kind: 'gen-part' | 'gen-prod' | 'mc' | 'sim' | 'expect:<invariant>' (a model of a
+    defective variant: TLC must report that invariant violated)"""
     runs = [("arith", "Partitioner", "Partitioner.arith.cfg", "gen-part"),
             ("seq", "Partitioner", "Partitioner.seq.cfg", "gen-part"),
             ("rr", "Partitioner", "Partitioner.rr.cfg", "gen-part"),
             ("sim", "Partitioner", "Partitioner.sim.cfg", "sim"),
-            ("asis", "Partitioner", "Partitioner.asis.cfg", "asis"),
-            ("routing", "PartitionerRouting", "PartitionerRouting.quick.cfg", "gen-prod")]
+            ("asis", "Partitioner", "Partitioner.asis.cfg", "expect:NoCrash"),
+            ("pair", "PartitionerPair", "PartitionerPair.quick.cfg", "gen-part"),
+            ("pair-shared", "PartitionerPair", "PartitionerPair.shared.cfg", "expect:OwnKeyDecides"),
+            ("routing", "PartitionerRouting", "PartitionerRouting.quick.cfg", "gen-prod"),
+            ("routing-dyn", "PartitionerRouting", "PartitionerRouting.dyn.cfg", "gen-prod"),
+            ("routing-countempty", "PartitionerRouting", "PartitionerRouting.countempty.cfg", "expect:RecoveredRouted")]
     if ctx.tier == "thorough":
         runs += [("seqbig", "Partitioner", "Partitioner.seqbig.cfg", "gen-part"),
                  ("rrbig", "Partitioner", "Partitioner.rrbig.cfg", "gen-part"),
                  ("pairs", "Partitioner", "Partitioner.pairs.cfg", "mc"),
+                 ("pair-big", "PartitionerPair", "PartitionerPair.big.cfg", "gen-part"),
+                 ("routing-dynbig", "PartitionerRouting", "PartitionerRouting.dynbig.cfg", "gen-prod"),
                  ("routing-np4", "PartitionerRouting", "PartitionerRouting.np4.cfg", "gen-prod"),
                  ("routing-m3", "PartitionerRouting", "PartitionerRouting.m3.cfg", "gen-prod")]
     return runs
@@ -70,18 +81,22 @@ def run_models(ctx):
             return ctx.tlc(module, cfg, workers=1, timeout=900, simulate="num=%d" % nsim, depth=41, seed=ctx.seed, name=name)
         return ctx.tlc(module, cfg, workers=4, timeout=1500, name=name)
 
-    with concurrent.futures.ThreadPoolExecutor(max_workers=4) as ex:
+    with concurrent.futures.ThreadPoolExecutor(max_workers=5) as ex:
         results = list(ex.map(one, runs))
     part_cases, prod_cases, stats = [], [], []
     seen = set()
-    model_confirms_defect = False
+    model_confirms_defect = {}
     for (name, module, cfg, kind), r in zip(runs, results):
-        if kind == "asis":
-            # the as-is model of WithCustomFallbackPartitioner (hp.random = hp) must violate NoCrash
+        if kind.startswith("expect:"):
+            # models of defective variants (WithCustomFallbackPartitioner assigning hp.random = hp; instances sharing
+            # one hasher; the empty writable list charged to the topic breaker) must violate the named invariant
+            inv = kind.split(":", 1)[1]
             if r.timed_out or r.error:
                 ctx.need(r, "model " + cfg)
-            model_confirms_defect = (r.violated == "NoCrash")
-            stats.append({"cfg": cfg, "expected_violation": "NoCrash", "violated": r.violated, "states": r.distinct})
+            model_confirms_defect[name] = (r.violated == inv)
+            if r.violated != inv:
+                raise vlib.Inconclusive("model %s was expected to violate %s, TLC reported %s" % (cfg, inv, r.violated))
+            stats.append({"cfg": cfg, "expected_violation": inv, "violated": r.violated, "states": r.distinct})
             continue
         if kind == "sim":
             if r.timed_out or (r.error and "CASE" not in r.out) or r.violated:
@@ -180,6 +195,8 @@ def run(ctx):
     if st.get("scen") != s2["scenarios"] or st.get("msgs") != s2["messages"]:
         raise vlib.Inconclusive("trace validation evaluated %s messages of %s scenarios, harness recorded %d of %d"
                                 % (st.get("msgs"), st.get("scen"), s2["messages"], s2["scenarios"]))
+    if st.get("flips") != s2.get("recovery_scenarios"):
+        raise vlib.Inconclusive("trace validation saw %s recoveries, harness recorded %s" % (st.get("flips"), s2.get("recovery_scenarios")))
     if s2.get("transport_errors", 0) * 50 > s2["messages"]:
         raise vlib.Inconclusive("%d of %d messages failed with connection errors between client and mock broker"
                                 % (s2["transport_errors"], s2["messages"]))
@@ -216,7 +233,7 @@ def run(ctx):
         "states": sum(g.get("states", 0) for g in gstats),
         "transitions": sum(g.get("generated", 0) for g in gstats),
         "traces_validated_against_impl": s1["behaviours"] + s2["scenarios"],
-        "samples": (s1.get("samples", [])[:3] + s2.get("samples", [])[:1]) or part_cases[:2],
+        "samples": (s1.get("samples", [])[:2] + s1.get("samples", [])[-1:] + s2.get("samples", [])[:2]) or part_cases[:2],
         "exhaustive": True,
         "partitioner_behaviours_replayed": s1["behaviours"],
         "partition_calls_judged": st["calls"],
@@ -225,7 +242,12 @@ def run(ctx):
         "behaviours_in_subprocess": s1["in_subprocess"],
         "subprocess_crashes_observed": s1["crashes"],
         "behaviours_not_rerun_identical_crash_prefix": s1["identical_crash_prefix_not_rerun"],
+        "pair_schedules_replayed": s1.get("pair_schedules", 0),
+        "pair_calls_judged": s1.get("pair_calls", 0),
+        "pair_calls_overlapping_another": s1.get("pair_calls_overlapping", 0),
         "producer_scenarios_replayed": s2["scenarios"],
+        "producer_recovery_scenarios_replayed": s2.get("recovery_scenarios", 0),
+        "producer_breaker_open_errors_seen": s2.get("breaker_open_errors", 0),
         "producer_messages_judged": st["msgs"],
         "producer_scenarios_by_partitioner": s2["by_partitioner"],
         "producer_batches_with_hang": s2["batches_with_hang"],
@@ -233,7 +255,7 @@ def run(ctx):
         "producer_goroutine_panics": (s2.get("panics") or [])[:3],
         "trace_events_validated": nlines,
         "model_drift": st.get("drift", 0),
-        "model_confirms_fallback_recursion": model_confirms,
+        "models_of_defective_variants_violate_as_expected": model_confirms,
         "generation": gstats,
         "clauses": PART_CLAUSES + PROD_CLAUSES,
         "violations_by_clause": byclause,
@@ -248,6 +270,9 @@ def run(ctx):
                         "is offered all partitions for every message (Partitioner interface contract)",
                         "the simulated broker is healthy: a message whose chosen partition has a leader must reach the wire "
                         "in that partition and be acknowledged",
-                        "bounds: n in 1..16, <= 4 partitions per topic, 2-3 messages per scenario, Retry.Max = 0"],
+                        "a circuit breaker may only be open after real errors: three failed leader look-ups of the same partition "
+                        "(partition worker) or connection trouble; an empty writable list is a valid answer, not an error",
+                        "the leaders come back while the producer is idle (all earlier messages have their outcome)",
+                        "bounds: n in 1..16, <= 4 partitions per topic, 2-3 messages per scenario (recovery: 5-8), Retry.Max = 0"],
                        save={"trace.ndjson": trace, "cases.part.ndjson": cases1, "cases.prod.ndjson": cases2},
                        extra_lines=extra)
